@@ -6,7 +6,7 @@ from ..front import norm, walk_no_nested
 from ..symeval import SymEval, is_const, show
 from . import shared as SH
 from . import tablerules as TR
-from .util import guard_text, leaves, subterms
+from .util import guard_text, leaves, mentions, subterms
 
 META = {
     "explanation": (
@@ -78,7 +78,7 @@ def run(eng, ctx):
     # ---- probe lists: getattr(msg, f"{elem(list)}_{elem(range(1, msg.X + 1)):02d}")
     probes = {}  # counter attr -> (names, sep, spec, effect)
     for e in se.effects:
-        if e.kind != "call" or e.term[2] != ("builtin", "getattr") or len(e.term[3]) < 2:
+        if e.kind != "call" or e.term[2] != ("builtin", "getattr") or len(e.term[3]) < 2 or e.term[3][0] != msgp:
             continue
         name = e.term[3][1]
         if name[0] != "fstr":
@@ -309,6 +309,10 @@ def run(eng, ctx):
             ctx.check(len(appends) == 1, "C18.D6", pm.qualname, f"{counter} loop appends once per index", expected="one append per iteration", found=f"{len(appends)} append(s)", **eng.loc(pm, e.node))
             ctx.check(counter in facts["derived_counters"], "C18.D6", pm.qualname, f"{counter} is a decoder-derived counter", expected="stored by the decoder", found=str(sorted(facts["derived_counters"])), **eng.loc(pm, e.node))
 
+    ctx.rule("C18.D10", "the helpers read no local variable before it is bound (UnboundLocalError instead of a result)")
+    for hf, hse in ((pm, se), (ph, sh)):
+        ub = hse.undef_reads
+        ctx.check(not ub, "C18.D10", hf.qualname, "locals bound before use", expected="every local read has a binding on its path", found=", ".join(f"{n.id} (line {n.lineno})" for n in ub[:4]) or "ok", **eng.loc(hf, ub[0] if ub else hf.node))
     _structure_msm(eng, ctx, pm, se, msgp, probes, nsat, ncell, gnssmap)
     _structure_harmonics(eng, ctx, ph, sh, mp, facts, coeffs)
 
@@ -424,6 +428,27 @@ def _structure_harmonics(eng, ctx, ph, sh, mp, facts, coeffs):
             hts.append(e.term)
         if e.kind == "setitem" and e.loops == (Lo,) and e.term[0] == "dict":
             hts.extend(v for k, v in zip(e.term[1], e.term[2]) if k == ("const", "Layer Height"))
+    D = lstores[0].term if okl else None
+    hv_loop = ("loop", Lo, hv)
+
+    def in_layer(B, pre_of=None):
+        """B denotes this layer's dict: the object stored under the layer number, result[layer] read back, or a local bound to it."""
+        while B[0] == "upd":  # the same object after item stores
+            B = B[1]
+        if D is not None and B == D:
+            return True
+        if B[0] == "idx" and B[2] == lyr and mentions(B[1], lambda s_: s_ == hv_loop):
+            return True
+        if B[0] == "loop" and pre_of is not None and pre_of(B) is not None:
+            return in_layer(pre_of(B))
+        return False
+
+    def pre_of(B):
+        return (sh.loop_info.get(B[1], {}).get("pre") or {}).get(B[2])
+
+    for e in sh.effects:
+        if e.kind == "setitem" and e.loops == (Lo,) and e.target[2] == ("const", "Layer Height"):
+            ctx.check(in_layer(e.target[1], pre_of), "C18.D9", ph.qualname, "layer height stored in this layer's entry", expected="result[layer]['Layer Height'] (or the dict stored under the layer number)", found=show(e.target[1])[:70], **eng.loc(ph, e.node))
     d1 = [t for t in hts if t[0] == "call" and t[2] == ("builtin", "getattr") and t[3][0] == mp]
     ctx.check(len(hts) == 1 and len(d1) == 1, "C18.D9", ph.qualname, "layer height entry", expected="'Layer Height' -> getattr(msg, <height field of this layer>) once per layer", found="; ".join(show(t)[:50] for t in hts) or "no 'Layer Height' entry", **eng.loc(ph, lo.get("node", ph.node)))
     # coefficient lists and probes
@@ -434,9 +459,21 @@ def _structure_harmonics(eng, ctx, ph, sh, mp, facts, coeffs):
         Lc, Lw = eg.loops[1], eg.loops[2]
         cel = ("elem", sh.loop_info[Lc].get("iter"), Lc)
         lsts = [e for e in sh.effects if e.kind == "setitem" and e.loops == (Lo, Lc) and e.target[2] == ("proj", cel, 1) and e.term[0] == "list" and not e.term[1]]
+        for e in lsts:
+            ctx.check(in_layer(e.target[1], pre_of), "C18.D9", ph.qualname, "coefficient list stored in this layer's entry", expected="result[layer][kind] = [] (or through the layer's dict)", found=show(e.target[1])[:70], **eng.loc(ph, e.node))
+        # NAME of the probed attribute: <field of this kind>_<layer + 1>_<k>, read from the message
+        nm = eg.term[3][1]
+        parts = nm[1] if nm[0] == "fstr" else ()
+        fm = [p_ for p_ in parts if p_[0] == "fmt"]
+        okn = eg.term[3][0] == mp and len(fm) == 3 and fm[0][1] == ("proj", cel, 0) and fm[1][1] == ("bin", "+", lyr, ("const", 1))
+        ctx.check(okn, "C18.D9", ph.qualname, "probed attribute name", expected="getattr(msg, f'{field of this kind}_{layer + 1:02d}_{k:02d}')", found=show(eg.term)[:100], **eng.loc(ph, eg.node))
         ctx.check(len(lsts) == 1, "C18.D9", ph.qualname, "coefficient list", expected="layer[<coefficient kind>] = [] once per kind", found=f"{len(lsts)} store(s) of a new list under the kind's name", **eng.loc(ph, eg.node))
         apps = [e for e in sh.effects if e.kind == "call" and e.term[2][0] == "attr" and e.term[2][2] == "append" and e.loops == eg.loops]
         okapp = len(apps) == 1 and apps[0].term[3] == (eg.term,) and not [g for g in apps[0].guards if g not in eg.guards]
+        if len(apps) == 1 and len(lsts) == 1:
+            R, Lobj = apps[0].term[2][1], lsts[0].term
+            okr = R == Lobj or (R[0] == "loop" and pre_of(R) == Lobj) or (R[0] == "idx" and R[2] == ("proj", cel, 1) and in_layer(R[1], pre_of))
+            ctx.check(okr, "C18.D9", ph.qualname, "append goes to this kind's list", expected="result[layer][kind].append(...) (or the list stored there)", found=show(R)[:70], **eng.loc(ph, apps[0].node))
         ctx.check(okapp, "C18.D9", ph.qualname, "probed value appended", expected="<list>.append(getattr(msg, NAME(k))) once per iteration", found="; ".join(show(e.term[3][0])[:40] if e.term[3] else "-" for e in apps) or "no append", **eng.loc(ph, eg.node))
         # the while loop runs from k = 1 and ends only on the missing attribute
         lw = sh.loop_info[Lw]
